@@ -95,7 +95,12 @@ def expected_edges(h):
 
 
 def check_hugr(case) -> list[Fail]:
-    h, flags = c02.build(case)
+    if "op" in case:
+        from vlib.props import c05
+
+        h = c05.order_probe(case["op"])  # one node of a generated operation between two order edges
+    else:
+        h, flags = c02.build(case)
     try:
         doc = json.loads(h.to_json())
     except Exception as e:  # noqa: BLE001
@@ -176,6 +181,8 @@ SUBS = [
         nontrivial=nontrivial, classes=lambda c: sorted(set(c["prog"].get("classes", [])) & {"call", "polymorphic-call", "arity-changing-instantiation", "load-function", "function-called-twice"}), n_quick=80, n_thorough=600,
         sample_ok=lambda c: len(json.dumps(c)) < 3000),
     Sub("raw", check_hugr, strategy=c02.raw_strategy, nontrivial=nontrivial, classes=lambda c: sorted(facts(c) & {"delete-node", "static-edge", "order-edge-with-unconnected-port", "multi-link", "order-link"}), n_quick=200, n_thorough=1500),
+    Sub("order-ports-by-kind", check_hugr, strategy=lambda tier: __import__("vlib.props.c05", fromlist=["x"]).order_ports_strategy(tier), nontrivial=lambda c: c["op"]["k"] in ("Call", "LoadFunc", "LoadConst", "CallIndirect"),
+        classes=lambda c: [c["op"]["k"]], n_quick=150, n_thorough=1500),
     Sub("order-ports", check_hugr, strategy=c02.order_strategy, nontrivial=nontrivial, classes=lambda c: sorted(facts(c) & {"delete-node", "order-link", "order-edge-with-unconnected-port"}), n_quick=150, n_thorough=1000),
     Sub("index-reuse", check_hugr, strategy=c02.reuse_strategy, nontrivial=nontrivial, classes=lambda c: sorted(facts(c) & {"delete-node", "order-link"}), n_quick=250, n_thorough=1500),
     Sub("packages", check_package, strategy=pkg_strategy, nontrivial=lambda c: bool(c["exts"]) or any(modgen.n_nodes(m) >= 4 for m in c["modules"]), n_quick=80, n_thorough=600),
